@@ -482,7 +482,7 @@ def main_wrapper(fn):
 # Batched trace validation: one TLC invocation consumes many recorded traces/records
 # ----------------------------------------------------------------------------------------------
 def validate_records(module, cfg, records, nchunks=16, timeout=1800, idvar="i", max_rounds=4,
-                     extra_env=None):
+                     extra_env=None, max_rejections_per_chunk=12):
     """Split `records` (JSON-serialisable dicts, each with an 'id') into chunks; run the trace
     spec `module` on each chunk in parallel (TLC -workers 1, env TRACE_FILE).  A chunk whose
     run reports a violated invariant names the record (variable `idvar` in the last printed
@@ -500,6 +500,10 @@ def validate_records(module, cfg, records, nchunks=16, timeout=1800, idvar="i", 
         out = {"accepted": 0, "rejected": [], "drift": set(), "states": 0, "generated": 0}
         rounds = 0
         while chunk and rounds <= max_rounds + len(out["rejected"]):
+            if len(out["rejected"]) >= max_rejections_per_chunk:
+                # a systematic rejection (every record of the chunk fails): enough witnesses; the rest is left unexamined
+                out["unexamined"] = out.get("unexamined", 0) + len(chunk)
+                break
             rounds += 1
             tf = os.path.join(d, "chunk%d_%d.json" % (k, rounds))
             with open(tf, "w") as f:   # keys starting with "_" are harness-side metadata, not for TLC
@@ -546,6 +550,7 @@ def validate_records(module, cfg, records, nchunks=16, timeout=1800, idvar="i", 
                 res["drift"] |= o["drift"]
                 res["states"] += o["states"]
                 res["generated"] += o["generated"]
+                res["unexamined"] = res.get("unexamined", 0) + o.get("unexamined", 0)
     finally:
         shutil.rmtree(d, ignore_errors=True)
     return res
